@@ -311,12 +311,34 @@ func runC02(c *Ctx) {
 			rejectErrs[rej]++
 			errMu.Unlock()
 		}
+		// Rejected messages in between: the decoder's error paths give back what they took from the
+		// pools; if one gives something back twice, two names of later accepted messages share an
+		// array (the pool sanitizer reports the second release, judged after the run).
+		if idx%4 == 1 && len(w) > 14 {
+			for k := 0; k < 2; k++ {
+				bad := append([]byte{}, w...)
+				if k == 0 {
+					bad = bad[:12+r.Intn(len(bad)-12)]
+				} else {
+					bad[len(bad)-1-r.Intn(len(bad)/3+1)] ^= byte(1 + r.Intn(255))
+				}
+				if pm, err := dnsmsg.UnpackMsg(bad); err == nil {
+					dnsmsg.ReleaseMsg(pm)
+					cnt.merge(map[string]int64{"damaged_variants_still_accepted": 1})
+				} else {
+					cnt.merge(map[string]int64{"damaged_variants_rejected": 1})
+				}
+			}
+		}
 		if idx < 4 {
 			c.Ev.Sample(map[string]any{"idx": idx, "reference_wire_hex": hex.EncodeToString(w[:min(len(w), 160)]), "wire_len": len(w), "questions": len(m.Questions), "records": m.NumRecords(), "pointers": lay.Pointers})
 		}
 	})
 	c.Ev.Eval(int(cnt.get("generated")))
 	cnt.flush(c)
+	for _, rp := range pool.VerifTakeReports() {
+		c.Violation("pool-report:"+rp.Kind+"@"+c01decTopSite(rp.Site), fmt.Sprintf("pool sanitizer: %s at %s while accepted and rejected messages were decoded in turn: a buffer handed out twice lets one accepted message's names overwrite another's", rp.Kind, rp.Site), map[string]any{"report": rp})
+	}
 	keys := []string{}
 	for k := range rejectErrs {
 		keys = append(keys, k)
